@@ -29,17 +29,17 @@ TEXT = {
                 technique='visitor-completeness analysis; table extraction from MIR discriminant switches and call-chain ranking'),
     'C09': dict(level=_L + 'Clauses: printer reads every comment slot; parser never drops a possibly non-empty comment vector on a non-error path.',
                 design_ref='DESIGN.md §3.1, §3.5', note=_N,
-                technique='visitor-completeness analysis; linear-resource typestate dataflow over MIR drops'),
+                technique='visitor-completeness analysis; linear-resource typestate dataflow over MIR drops; must-pass-through (all paths) rule for comment tokens in the token pump; key-closure provenance for the import sort'),
     'C10': dict(level=_L, design_ref='DESIGN.md §3.4', note=_N, technique='dominance and def-use rules over the three state mutators'),
     'C11': dict(level=_L + 'Clauses: GC marker visits every string slot; request-path map lookups are justified by a dominating lookup.',
                 design_ref='DESIGN.md §3.1, §3.2', note=_N,
-                technique='type-directed visitor-completeness analysis; dominance analysis of unwrap sites; compile-fail witnesses'),
+                technique='type-directed visitor-completeness analysis; dominance analysis of unwrap sites; predicate-shape rule for unwrapped searches; compile-fail witnesses'),
     'C15': dict(level=_L + 'Clauses: renamer and scope analysis visit every identifier/expression/pattern child; navigation uses the checker\'s own SSA result.',
                 design_ref='DESIGN.md §3.1, §3.12', note=_N,
-                technique='visitor-completeness analysis; who-computes call-graph rule'),
-    'C12': dict(level=_L + 'Clause decided: the content of rendered diagnostics does not depend on hash seeds (no hash-iteration order reaches an error report argument); temp-name counters are synchronised on every path. Not decided: equivalence of the programs emitted under different module enumeration orders or thread counts.',
+                technique='visitor-completeness analysis; who-computes call-graph rule; path rule on discriminant switches of child nodes (unnamed variants must reach the visitor); who-may-propagate rule for `?` in the cursor search'),
+    'C12': dict(level=_L + 'Clause decided: the content of rendered diagnostics does not depend on hash seeds (no hash-iteration order reaches an error report argument); temp-name counters are synchronised on every path; no branch of the code reachable from the closures given to the rayon adapters depends on state shared between workers; no stable keyed sort over hash entries uses a lossy key. Not decided: equivalence of the programs emitted under different module enumeration orders or thread counts.',
                 design_ref='DESIGN.md §3 (ORDER-TAINT, COUNTER-SYNC)', note=_N,
-                technique='interprocedural order-taint dataflow from HashMap/HashSet iteration to error-report arguments over rustc MIR; path rule for counter synchronisation'),
+                technique='interprocedural order-taint dataflow from HashMap/HashSet iteration to error-report arguments over rustc MIR; path rule for counter synchronisation; taint dataflow from atomic / lock reads to branch conditions inside the call-graph region of the parallel closures; key-closure provenance for sorts over hash entries'),
     'C14': dict(level=_L + 'Clauses decided: a node location built by the parser encloses its sub-parts; an identifier takes location and name from one token. Not decided: the lexer\'s line/column bookkeeping, positions inside the document, sibling overlap.',
                 design_ref='DESIGN.md §3 (LOC-ENCLOSES, NAME-LOC-PAIR)', note=_N,
                 technique='provenance dataflow of Location values (token / child / union sources with their program points) over the parser MIR, checked by set dominance at each node construction'),
